@@ -1,8 +1,15 @@
 #!/bin/bash
-# runs every seeded change against its property's quick check (sequentially; uses /repo's working tree)
-cd /verif
-for d in seeded/C*/m*; do
+# runs seeded changes against their property's quick check, sequentially.
+#   tools/seedsweep.sh            every seeded/C*/m*
+#   tools/seedsweep.sh 'm[78]'    only those (shell pattern on the change name)
+# Uses /repo's working tree (patch applied, check run, patch undone), or the tree named by VERIF_REPO
+# (e.g. a scratch copy, so that a sweep can run next to other work); results go to seeded/<id>/<m>/result.json.
+cd "$(dirname "$0")/.."
+pat=${1:-m*}
+[ -n "$VERIF_REPO" ] && ./setup.sh >/dev/null 2>&1
+for d in seeded/C*/$pat; do
+  [ -f $d/patch.diff ] || continue
   s=${d#seeded/}
-  tools/seedrebase.sh ${s%/*} ${s#*/} >/dev/null 2>&1
-  tools/seedrun.py $s 2>&1 | tail -1 | cut -c1-160
+  [ -z "$VERIF_REPO" ] && tools/seedrebase.sh ${s%/*} ${s#*/} >/dev/null 2>&1
+  echo "$s: $(tools/seedrun.py $s 2>&1 | tail -1 | cut -c1-200)"
 done
